@@ -10,7 +10,9 @@ using namespace opensmt;
 #ifndef MAXAR
 #define MAXAR 4
 #endif
+#ifndef NVARS
 #define NVARS 5
+#endif
 #define TERM 100u          // PTRef of the term being cnfized; arguments are PTRef 10..10+MAXAR-1
 
 static uint32_t pt_words[3 + MAXAR];     // raw Pterm: header | id | sym | args[]
